@@ -74,7 +74,7 @@ theorem updateContracts_ok (s s' : LState) (log : Bool) (b : Nat) (replaced : Li
 
 /-- the state `updateContracts` starts from in `Update` -/
 def LState.deployed0 (s : LState) (b : Nat) (d : Diff) : LState :=
-  ({ s with classes := declareFold s.classes b d.classHashes }).deploy b d.deployed
+  ({ s with classes := declareFold s.classes b d.newClasses }).deploy b d.deployed
 
 /-- the guards of the legacy `Update`, as facts, and its result -/
 structure LGuards (s : LState) (b : Nat) (d : Diff) : Prop where
@@ -281,7 +281,7 @@ theorem linv_store (ch : List Diff) (s s' : LState) (d : Diff) (hinv : LInv ch s
   have hd0 := deployed0_fields s ch.length d hwf
   have e0trie : (s.deployed0 ch.length d).trie = s.trie := rfl
   have e0logs : (s.deployed0 ch.length d).logs = s.logs := rfl
-  have e0cls : (s.deployed0 ch.length d).classes = declareFold s.classes ch.length d.classHashes := rfl
+  have e0cls : (s.deployed0 ch.length d).classes = declareFold s.classes ch.length d.newClasses := rfl
   have habs : absOf (d :: ch) = (absOf ch).apply ch.length d := rfl
   have hdep0 : ∀ a, a ∈ d.deployed.map (·.1) → (absOf ch).dep a = none := by
     intro a ha
@@ -463,7 +463,7 @@ theorem linv_store (ch : List Diff) (s s' : LState) (d : Diff) (hinv : LInv ch s
     rw [hcls, e0cls, declareFold_get, hinv.classes c, habs]
     simp only [AbsSt.apply]
     by_cases hx : (absOf ch).decl c = none
-    · by_cases hc : c ∈ d.classHashes <;> simp [hx, hc]
+    · by_cases hc : c ∈ d.newClasses <;> simp [hx, hc]
     · obtain ⟨n, hn⟩ := Option.ne_none_iff_exists'.mp hx
       simp [hn]
 
@@ -480,11 +480,11 @@ theorem firstGT_below (h : Hist) (b n : Nat) (hb : Below h b) (hn : b ≤ n + 1)
 theorem legacy_revert_ok (s s' : LState) (b : Nat) (d : Diff) (h : s.revert b d = .ok s') :
     (b ≠ 0 → ∀ p ∈ d.nonces, (legacyValueAt (lget s.logs (.nonce p.1)) (b - 1)).isSome = true) ∧
     (b ≠ 0 → ∀ p ∈ d.replaced, (legacyValueAt (lget s.logs (.classHash p.1)) (b - 1)).isSome = true) ∧
-    s' = ((({ s with classes := undeclareFold s.classes b d.classHashes, logs := logsDelAll s.logs b d } : LState).afterContracts
+    s' = ((({ s with classes := undeclareFold s.classes b d.revertClasses, logs := logsDelAll s.logs b d } : LState).afterContracts
         false b
         (d.replaced.map (fun p => (p.1, if b = 0 then 0 else (legacyValueAt (lget s.logs (.classHash p.1)) (b - 1)).getD 0)))
         (d.nonces.map (fun p => (p.1, if b = 0 then 0 else (legacyValueAt (lget s.logs (.nonce p.1)) (b - 1)).getD 0)))
-        (({ s with classes := undeclareFold s.classes b d.classHashes } : LState).reverseStorage b d)).purgeAll d.deployed).purgeSystem := by
+        (({ s with classes := undeclareFold s.classes b d.revertClasses } : LState).reverseStorage b d)).purgeAll d.deployed).purgeSystem := by
   unfold LState.revert at h
   simp only at h
   split at h
@@ -566,20 +566,20 @@ theorem linv_revert (d : Diff) (rest : List Diff) (s s' : LState) (hinv : LInv (
     have : rest.length - 1 < rest.length := by omega
     simp [this]
   -- lookups in the reverse diff
-  have hrs : ∀ a k, ((alook (({ s with classes := undeclareFold s.classes rest.length d.classHashes } : LState).reverseStorage
+  have hrs : ∀ a k, ((alook (({ s with classes := undeclareFold s.classes rest.length d.revertClasses } : LState).reverseStorage
       rest.length d) a).bind (fun slots => alook slots k)) = (d.storageAt a k).map (fun _ => (absOf rest).stor a k) := by
     intro a k
     unfold LState.reverseStorage Diff.storageAt
     rw [alook_map_key d.storage (fun a slots => slots.map (fun e => (e.1, if rest.length = 0 then 0 else
       (legacyValueAt (lget s.logs (.storage a e.1)) (rest.length - 1)).getD
-        (LState.storageHead { s with classes := undeclareFold s.classes rest.length d.classHashes } a e.1)))) a]
+        (LState.storageHead { s with classes := undeclareFold s.classes rest.length d.revertClasses } a e.1)))) a]
     by_cases hS0 : alook d.storage a = none
     · simp [hS0]
     · obtain ⟨slots, hS⟩ := Option.ne_none_iff_exists'.mp hS0
       simp only [hS, Option.map_some, Option.bind_some]
       rw [alook_map_key slots (fun k _ => if rest.length = 0 then 0 else
         (legacyValueAt (lget s.logs (.storage a k)) (rest.length - 1)).getD
-          (LState.storageHead { s with classes := undeclareFold s.classes rest.length d.classHashes } a k)) k]
+          (LState.storageHead { s with classes := undeclareFold s.classes rest.length d.revertClasses } a k)) k]
       congr 1
       funext _
       by_cases hb : rest.length = 0
@@ -589,7 +589,7 @@ theorem linv_revert (d : Diff) (rest : List Diff) (s s' : LState) (hinv : LInv (
         have := hval (.storage a k) (by intro x e; cases e) hb
         simp only [keyVal] at this
         rw [← this]
-        have hh : LState.storageHead { s with classes := undeclareFold s.classes rest.length d.classHashes } a k =
+        have hh : LState.storageHead { s with classes := undeclareFold s.classes rest.length d.revertClasses } a k =
             (absOf (d :: rest)).stor a k := hinv.trie a k
         rw [hh]
   have hrn : ∀ a, alook (d.nonces.map (fun p => (p.1, if rest.length = 0 then 0 else
@@ -626,14 +626,14 @@ theorem linv_revert (d : Diff) (rest : List Diff) (s s' : LState) (hinv : LInv (
       · simp only [hb, if_false]
         have hl : logged d (absOf rest) (.classHash a) = true := by simp [logged, hR]
         rw [hlogged (.classHash a) hl hb]; rfl
-  have hndS : ((({ s with classes := undeclareFold s.classes rest.length d.classHashes } : LState).reverseStorage
+  have hndS : ((({ s with classes := undeclareFold s.classes rest.length d.revertClasses } : LState).reverseStorage
       rest.length d).map (·.1)).Nodup := by
     unfold LState.reverseStorage
     rw [map_map_fst d.storage (fun a slots => slots.map (fun e => (e.1, if rest.length = 0 then 0 else
       (legacyValueAt (lget s.logs (.storage a e.1)) (rest.length - 1)).getD
-        (LState.storageHead { s with classes := undeclareFold s.classes rest.length d.classHashes } a e.1))))]
+        (LState.storageHead { s with classes := undeclareFold s.classes rest.length d.revertClasses } a e.1))))]
     exact hwf.storNodup
-  have hndSS : ∀ p ∈ ({ s with classes := undeclareFold s.classes rest.length d.classHashes } : LState).reverseStorage
+  have hndSS : ∀ p ∈ ({ s with classes := undeclareFold s.classes rest.length d.revertClasses } : LState).reverseStorage
       rest.length d, (p.2.map (·.1)).Nodup := by
     intro p hp
     unfold LState.reverseStorage at hp
@@ -641,7 +641,7 @@ theorem linv_revert (d : Diff) (rest : List Diff) (s s' : LState) (hinv : LInv (
     simp only
     rw [map_map_fst q.2 (fun k _ => if rest.length = 0 then 0 else
       (legacyValueAt (lget s.logs (.storage q.1 k)) (rest.length - 1)).getD
-        (LState.storageHead { s with classes := undeclareFold s.classes rest.length d.classHashes } q.1 k))]
+        (LState.storageHead { s with classes := undeclareFold s.classes rest.length d.revertClasses } q.1 k))]
     exact hwf.slotNodup q hq
   have hndN : ((d.nonces.map (fun p => (p.1, if rest.length = 0 then 0 else
       (legacyValueAt (lget s.logs (.nonce p.1)) (rest.length - 1)).getD 0))).map (·.1)).Nodup := by
@@ -654,7 +654,7 @@ theorem linv_revert (d : Diff) (rest : List Diff) (s s' : LState) (hinv : LInv (
       (legacyValueAt (lget s.logs (.classHash a)) (rest.length - 1)).getD 0)]
     exact hwf.repNodup
   have hspec := afterContracts_spec
-    ({ s with classes := undeclareFold s.classes rest.length d.classHashes, logs := logsDelAll s.logs rest.length d } : LState)
+    ({ s with classes := undeclareFold s.classes rest.length d.revertClasses, logs := logsDelAll s.logs rest.length d } : LState)
     false rest.length _ _ _ hndR hndN hndS hndSS
   simp only at hspec
   obtain ⟨hord, htrie, hcls, hlogC, hlogN, hlogS⟩ := hspec
@@ -682,13 +682,13 @@ theorem linv_revert (d : Diff) (rest : List Diff) (s s' : LState) (hinv : LInv (
       · exact hdel_below _ _ (logsOf_below rest key)
       · rfl
   generalize hA : LState.afterContracts
-    ({ s with classes := undeclareFold s.classes rest.length d.classHashes, logs := logsDelAll s.logs rest.length d } : LState)
+    ({ s with classes := undeclareFold s.classes rest.length d.revertClasses, logs := logsDelAll s.logs rest.length d } : LState)
     false rest.length
     (d.replaced.map (fun p => (p.1, if rest.length = 0 then 0 else
       (legacyValueAt (lget s.logs (.classHash p.1)) (rest.length - 1)).getD 0)))
     (d.nonces.map (fun p => (p.1, if rest.length = 0 then 0 else
       (legacyValueAt (lget s.logs (.nonce p.1)) (rest.length - 1)).getD 0)))
-    (({ s with classes := undeclareFold s.classes rest.length d.classHashes } : LState).reverseStorage rest.length d) = A
+    (({ s with classes := undeclareFold s.classes rest.length d.revertClasses } : LState).reverseStorage rest.length d) = A
     at hs' hord htrie hcls hlogC hlogN hlogS
   subst hs'
   refine ⟨hwfr, hinv.depOnce.2, hinv.undep.2, ?_, ?_, ?_, ?_, ?_, ?_, ?_⟩
@@ -759,7 +759,7 @@ theorem linv_revert (d : Diff) (rest : List Diff) (s s' : LState) (hinv : LInv (
     rw [htrie a]
     show tget (ocases _ (lget s.trie a) _) k = _
     have hrs' := hrs a k
-    by_cases hS0 : alook (({ s with classes := undeclareFold s.classes rest.length d.classHashes } : LState).reverseStorage
+    by_cases hS0 : alook (({ s with classes := undeclareFold s.classes rest.length d.revertClasses } : LState).reverseStorage
         rest.length d) a = none
     · simp only [hS0, ocases_none, Option.bind_none] at hrs' ⊢
       rw [hinv.trie a k, habs]
@@ -777,7 +777,7 @@ theorem linv_revert (d : Diff) (rest : List Diff) (s s' : LState) (hinv : LInv (
     show NoZero (lget A.trie a)
     rw [htrie a]
     show NoZero (ocases _ (lget s.trie a) _)
-    rcases alook (({ s with classes := undeclareFold s.classes rest.length d.classHashes } : LState).reverseStorage
+    rcases alook (({ s with classes := undeclareFold s.classes rest.length d.revertClasses } : LState).reverseStorage
         rest.length d) a with _ | slots
     · exact hinv.trieNZ a
     · exact foldl_tput_noZero _ _ (hinv.trieNZ a)
@@ -785,11 +785,14 @@ theorem linv_revert (d : Diff) (rest : List Diff) (s s' : LState) (hinv : LInv (
     rw [(purgeSystem_ordinary _ 0 rfl).2.2.2.2.2]
     show bget A.classes c = _
     rw [hcls]
-    show bget (undeclareFold s.classes rest.length d.classHashes) c = _
+    show bget (undeclareFold s.classes rest.length d.revertClasses) c = _
     rw [undeclareFold_get, hinv.classes c, habs]
     simp only [AbsSt.apply]
     by_cases hx : (absOf rest).decl c = none
-    · by_cases hc : c ∈ d.classHashes <;> simp [hx, hc]
+    · by_cases hc : c ∈ d.newClasses
+      · have := newClasses_sub_revert d hwf c hc
+        simp [hx, hc, this]
+      · simp [hx, hc]
     · obtain ⟨n, hn⟩ := Option.ne_none_iff_exists'.mp hx
       have := decl_lt rest c n hn
       have hne : n ≠ rest.length := by omega
